@@ -11,15 +11,25 @@ import (
 )
 
 func main() {
+	if len(os.Args) == 4 && os.Args[1] == "raceoverlay" {
+		ov, err := instr.RaceRuntimeOverlay(os.Args[2], os.Args[3])
+		if err != nil {
+			fmt.Fprintln(os.Stderr, err)
+			os.Exit(2)
+		}
+		fmt.Println(ov)
+		return
+	}
 	if len(os.Args) < 3 {
-		fmt.Fprintln(os.Stderr, "usage: vinstr <src> <dst> [tags,comma] [small]")
+		fmt.Fprintln(os.Stderr, "usage: vinstr <src> <dst> [tags,comma] [small] | vinstr raceoverlay <goroot> <outdir>")
 		os.Exit(2)
 	}
 	opt := instr.Options{}
 	if len(os.Args) > 3 && os.Args[3] != "" && os.Args[3] != "-" {
 		opt.Tags = strings.Split(os.Args[3], ",")
 	}
-	opt.SmallKnobs = len(os.Args) > 4
+	opt.SmallKnobs = len(os.Args) > 4 && strings.Contains(os.Args[4], "small")
+	opt.Race = len(os.Args) > 4 && strings.Contains(os.Args[4], "race")
 	rep, err := instr.Instrument(os.Args[1], os.Args[2], opt)
 	if err != nil {
 		fmt.Fprintln(os.Stderr, err)
